@@ -439,6 +439,9 @@ namespace bxdecay0 {
         if (_pimpl_->tab_prob.e_min[0] < 0.0 or _pimpl_->tab_prob.e_min[0] >= _pimpl_->tab_prob.e_max[0]) {
           throw std::logic_error("bxdecay0::dbd_gA::_load_tabulated_pdf_: Invalid E range!");
         }
+        if (_pimpl_->tab_prob.nsamples < 2 or _pimpl_->tab_prob.nsamples > 100000) {
+          throw std::logic_error("bxdecay0::dbd_gA::_load_tabulated_pdf_: Invalid number of energy samples!");
+        }
 
         _pimpl_->tab_prob.e_nsamples[0] = _pimpl_->tab_prob.nsamples;
         _pimpl_->tab_prob.e_nsamples[1] = _pimpl_->tab_prob.nsamples;
@@ -486,6 +489,10 @@ namespace bxdecay0 {
         unsigned int n2 = _pimpl_->tab_prob.e_nsamples[1];
         if (prob_index == 0) {
           _pimpl_->tab_prob.prob.reserve(n1 * n2);
+        }
+        if (e2_pdf_count >= (int) _pimpl_->tab_prob.nsamples) {
+          throw std::logic_error("bxdecay0::dbd_gA::_load_tabulated_pdf_: Too many p.d.f. rows at line #"
+                                 + std::to_string(nlines) + "!");
         }
         unsigned int e2_expected_samples = _pimpl_->tab_prob.nsamples - e2_pdf_count;
         unsigned int e2_sample_count     = 0;
@@ -552,6 +559,9 @@ namespace bxdecay0 {
         }
         break;
       }
+    }
+    if (not parsed_energy_sampling_header or e2_pdf_count != (int) _pimpl_->tab_prob.nsamples) {
+      throw std::logic_error("bxdecay0::dbd_gA::_load_tabulated_pdf_: Incomplete tabulated p.d.f.!");
     }
     if (debug) {
       std::cerr << "[debug] bxdecay0::dbd_gA::_load_tabulated_pdf_: Energy sampling step = "
@@ -659,6 +669,9 @@ namespace bxdecay0 {
         if (_pimpl_->tab_prob.e_min[0] < 0.0 or _pimpl_->tab_prob.e_min[0] >= _pimpl_->tab_prob.e_max[0]) {
           throw std::logic_error("bxdecay0::dbd_gA::_load_tabulated_cdf_opt_: Invalid E range!");
         }
+        if (_pimpl_->tab_prob.nsamples < 2 or _pimpl_->tab_prob.nsamples > 100000) {
+          throw std::logic_error("bxdecay0::dbd_gA::_load_tabulated_cdf_opt_: Invalid number of energy samples!");
+        }
 
         _pimpl_->tab_prob.energies.reserve(_pimpl_->tab_prob.nsamples);
         _pimpl_->tab_prob.e_min[1] = _pimpl_->tab_prob.e_min[0];
@@ -720,6 +733,10 @@ namespace bxdecay0 {
           _pimpl_->tab_prob.e2_cprobs.push_back(empty);
         }
         std::vector<double> & cdf_probs  = _pimpl_->tab_prob.e2_cprobs.back();
+        if (e2_cdf_count >= (int) _pimpl_->tab_prob.nsamples) {
+          throw std::logic_error("bxdecay0::dbd_gA::_load_tabulated_cdf_opt_: Too many c.d.f. rows at line #"
+                                 + std::to_string(nlines) + "!");
+        }
         unsigned int e2_expected_samples = _pimpl_->tab_prob.nsamples - e2_cdf_count;
         cdf_probs.reserve(e2_expected_samples);
         load_optimized_cdf_array(raw_line, cdf_probs);
@@ -753,6 +770,11 @@ namespace bxdecay0 {
         break;
       }
     } // while getline loop
+    if (not parsed_energy_sampling_header or not parsed_e1_cdf
+        or _pimpl_->tab_prob.e1_cprobs.size() != _pimpl_->tab_prob.nsamples
+        or e2_cdf_count != (int) _pimpl_->tab_prob.nsamples) {
+      throw std::logic_error("bxdecay0::dbd_gA::_load_tabulated_cdf_opt_: Incomplete tabulated c.d.f.!");
+    }
     if (debug) {
       std::cerr << "[debug] bxdecay0::dbd_gA::_load_tabulated_cdf_opt_: Energy sampling step = "
                 << std::to_string(_pimpl_->tab_prob.energy_step) << " MeV" << std::endl;
